@@ -144,6 +144,9 @@ func (n *simNode) SendToPeer(peerID identity.AgentID, frame *protocol.Frame) err
 		return err
 	}
 	n.net.enqueue(n.Idx, to, wire)
+	if n.net.Inject != nil {
+		n.net.Inject(n.Idx, "sent")
+	}
 	return nil
 }
 
@@ -155,6 +158,9 @@ func (n *simNode) GetPeerIDs() []identity.AgentID {
 		if n.net.up[n.Idx][j] {
 			ids = append(ids, n.net.Nodes[j].ID)
 		}
+	}
+	if n.net.Inject != nil {
+		n.net.Inject(n.Idx, "snapshot")
 	}
 	return ids
 }
@@ -183,6 +189,11 @@ type simNet struct {
 
 	OnDeliver func(d *simDelivery)
 	OnExpire  func(node int)
+	// Inject (optional) is called from inside a node's PeerSender: point "snapshot" right after
+	// the node took its GetPeerIDs snapshot, point "sent" right after one of its SendToPeer
+	// calls. A scenario may let another event (e.g. a peer joining) happen exactly there, as a
+	// concurrent goroutine of the real agent could.
+	Inject func(node int, point string)
 
 	cur *simFrame // frame being handled right now (nil outside Deliver)
 }
@@ -342,6 +353,10 @@ func (s *simNet) Connect(a, b int) {
 	}
 	s.up[a][b], s.up[b][a] = true, true
 	s.tr("up %d-%d", a, b)
+	// (a connect injected while a frame is being handled is an event of its own: what it puts
+	// on the wire is originated, not forwarded)
+	defer func(c *simFrame) { s.cur = c }(s.cur)
+	s.cur = nil
 	for _, side := range [][2]int{{a, b}, {b, a}} {
 		n, peer := s.Nodes[side[0]], s.Nodes[side[1]].ID
 		n.Fl.OnPeerConnected(peer)
@@ -855,6 +870,35 @@ func simCIDR(k int, v6 bool) *net.IPNet {
 	return &net.IPNet{IP: ip, Mask: net.CIDRMask(24, 32)}
 }
 
+// simCIDRKey is the harness's name of a CIDR route. For ordinary prefixes it is IPNet.String().
+// IPNet.String() prints an IPv6 prefix inside ::ffff:0:0/96 with a dotted-quad address
+// ("10.20.0.0/112") and cannot tell a 16-byte from a 4-byte address, so anything that is not a
+// plain IPv4 (4-byte address, 32-bit mask) or plain non-mapped IPv6 prefix gets an explicit form
+// with the address bytes, the mask length and the mask width.
+func simCIDRKey(n *net.IPNet) string {
+	if n == nil {
+		return "<nil>"
+	}
+	ones, bits := n.Mask.Size()
+	plain4 := len(n.IP) == net.IPv4len && bits == 32
+	plain6 := len(n.IP) == net.IPv6len && bits == 128 && n.IP.To4() == nil
+	if plain4 || plain6 {
+		return n.String()
+	}
+	return fmt.Sprintf("ip[%d]=%x/%d-of-%d", len(n.IP), []byte(n.IP), ones, bits)
+}
+
+// simCanonKey puts a route key into the form table snapshots use (CIDR keys are parsed and
+// renamed by simCIDRKey; other kinds are unchanged).
+func simCanonKey(k simRouteKey) simRouteKey {
+	if k.Kind == "cidr" {
+		if _, nw, err := net.ParseCIDR(k.Key); err == nil {
+			k.Key = simCIDRKey(nw)
+		}
+	}
+	return k
+}
+
 // simDomain returns the k-th distinct domain pattern, padded to about padTo characters
 // (labels <= 63, total <= 253).
 func simDomain(k int, wildcard bool, padTo int) string {
@@ -925,7 +969,7 @@ func (s *simNet) Learned(i int) []simLearned {
 		if r.OriginAgent == self && r.NextHop == self {
 			continue
 		}
-		out = append(out, simLearned{K: simRouteKey{Kind: "cidr", Key: r.Network.String()}, Origin: s.origin(r.OriginAgent),
+		out = append(out, simLearned{K: simRouteKey{Kind: "cidr", Key: simCIDRKey(r.Network)}, Origin: s.origin(r.OriginAgent),
 			NextHop: s.origin(r.NextHop), Metric: int(r.Metric), Path: s.ids(r.Path), Seq: r.Sequence, LastUpdate: r.LastUpdate})
 	}
 	for _, r := range m.DomainTable().GetAllRoutes() {
